@@ -89,6 +89,10 @@ class AbstractMetric(Metric):
         return 'S', [to_real(lift(y_pred))]
 
     def update(self, y_true, y_pred):
+        if getattr(self, 'reject_next', False):
+            self.reject_next = False
+            self.log.append(('update_rejected', y_true, y_pred))
+            raise ValueError("math domain error")          # e.g. river's RMSLE for predictions <= -1: state untouched
         tag, args = self._enc(y_pred)
         f = z3.Function(f"UPD_{tag}", *([z3.RealSort()] * (2 + len(args))), z3.RealSort())
         self.state = f(self.state, to_real(lift(y_true)), *args)
@@ -169,6 +173,17 @@ def _abstract(env, cfg):
     val2 = guarded(env, 'loss_call', w, y, pred)
     env.claim('value_follows_in_place_change_of_the_prediction_dict', eq(val2, sign * m.value_after(s0, y, seen2)))
     env.claim('state_restored', m.state.eq(s0))
+    # a pair the metric cannot score: update raises (leaving the metric as it was); the error reaches the caller, the metric
+    # is still untouched afterwards and the next call is answered as if nothing had happened
+    m.reject_next = True
+    try:
+        w(y, pred)
+        env.claim('rejected_pair_error_propagates', False)
+    except ValueError:
+        env.claim('rejected_pair_error_propagates', True)
+    env.claim('state_untouched_after_rejected_pair', m.state.eq(s0), detail=f"metric call log: {[e[0] for e in m.log[-3:]]}")
+    val3 = guarded(env, 'loss_call_after_rejection', w, y, pred)
+    env.claim('next_call_unaffected_by_rejected_pair', eq(val3, sign * m.value_after(s0, y, seen2)))
 
 
 # ---- (b) real river metrics with symbolic running-mean state -----------------------------------
